@@ -148,7 +148,7 @@ func Harness_C08_getEntries() {
 			n = 1
 		}
 		for i := 0; i < n; i++ {
-			l := &trillian.LogLeaf{LeafIndex: start + int64(i), LeafValue: vBytes("leaf-value", 1+vChoice("leaf-len", 2)), ExtraData: vBytes("extra", 1+vChoice("extra-len", 2))}
+			l := &trillian.LogLeaf{LeafIndex: start + int64(i), LeafValue: vBytes("leaf-value", 1+vChoice("leaf-len", 2)), ExtraData: vBytes("extra", vChoice("extra-len", 3))}
 			if fault == fMisindexed && i == n-1 {
 				l.LeafIndex = vI64("wrong-index")
 				vAssume(l.LeafIndex != start+int64(i))
